@@ -216,6 +216,19 @@ def run_strings(case, part):
         ch = chr(cp)
         feat = "control" if cp < 0x20 else "ascii" if cp < 0x80 else "bmp" if cp < 0x10000 else "astral"
         check_value(ch, part, "string", "string-" + feat)
+        # ENVIRONMENT: an interpreter without the `_json` accelerator uses the module's own escaping code: it must write the same text
+        from stix2.canonicalization import Canonicalize as CZ
+        pe = getattr(CZ, "py_encode_basestring", None)
+        if pe is not None:
+            part.transitions += 1
+            for text in (ch, "x" + ch + "y"):
+                try:
+                    got = pe(text)
+                except Exception as e:
+                    got = "%s: %s" % (type(e).__name__, str(e)[:60])
+                if got != J.jcs(text):
+                    part.violation("C16/pure-python-escaping/string-%s" % feat, "the escaping code used when the `_json` accelerator is missing writes another text than RFC 8785 requires",
+                                   {"kind": "string", "value": enc(text), "path": "py_encode_basestring"}, J.jcs(text), got)
         check_value({ch: ch}, part, "key", "key-" + feat)
         check_value("x" + ch + "y", part, "string", "string-" + feat)
     for a in CHARS12:
